@@ -109,7 +109,11 @@ pub struct ShutdownHandle {
 impl ShutdownHandle {
     /// Request the daemon to shut down.
     pub fn shutdown(&self) {
+        #[cfg(feature = "verif-hooks")]
+        vhost::verif::point("shutdown.before_flag");
         self.state.shutdown_requested.store(true, Ordering::Release);
+        #[cfg(feature = "verif-hooks")]
+        vhost::verif::point("shutdown.between_flag_and_socket");
         let _ = self.state.conn.shutdown(Shutdown::Both);
     }
 }
@@ -177,15 +181,25 @@ where
         let handle = thread::Builder::new()
             .name(self.name.clone())
             .spawn(move || {
+                #[cfg(feature = "verif-hooks")]
+                vhost::verif::thread_enter("daemon");
                 let result = loop {
+                    #[cfg(feature = "verif-hooks")]
+                    vhost::verif::point("daemon.before_request");
                     if let Err(e) = handler.handle_request().map_err(Error::HandleRequest) {
                         break Err(e);
                     }
+                    #[cfg(feature = "verif-hooks")]
+                    vhost::verif::point("daemon.after_request");
                 };
+                #[cfg(feature = "verif-hooks")]
+                vhost::verif::point("daemon.before_final_shutdown");
                 let _ = thread_state.conn.shutdown(Shutdown::Both);
                 result
             })
             .map_err(Error::StartDaemon)?;
+        #[cfg(feature = "verif-hooks")]
+        vhost::verif::thread_spawned();
 
         self.conn_state = Some(state);
         self.main_thread = Some(handle);
@@ -247,6 +261,8 @@ where
                 .is_some_and(|s| s.shutdown_requested.load(Ordering::Acquire))
         };
 
+        #[cfg(feature = "verif-hooks")]
+        vhost::verif::before_join(handle.thread().id());
         let result = match handle.join().map_err(Error::WaitDaemon)? {
             Ok(()) => Ok(()),
             Err(Error::HandleRequest(VhostUserError::SocketBroken(_))) => Ok(()),
@@ -294,6 +310,8 @@ where
         let result = self.wait();
 
         // Regardless of the result, we want to signal worker threads to exit
+        #[cfg(feature = "verif-hooks")]
+        vhost::verif::before_mutex(&self.handler, "daemon.handler.lock");
         self.handler.lock().unwrap().send_exit_event();
 
         // For this convenience function we are not treating certain "expected"
@@ -315,6 +333,8 @@ where
     /// event file descriptors.
     pub fn get_epoll_handlers(&self) -> Vec<Arc<VringEpollHandler<T>>> {
         // Do not expect poisoned lock.
+        #[cfg(feature = "verif-hooks")]
+        vhost::verif::before_mutex(&self.handler, "daemon.handler.lock");
         self.handler.lock().unwrap().get_epoll_handlers()
     }
 }
@@ -322,6 +342,8 @@ where
 impl<T: VhostUserBackend> Drop for VhostUserDaemon<T> {
     fn drop(&mut self) {
         if let Some(state) = self.conn_state.take() {
+            #[cfg(feature = "verif-hooks")]
+            vhost::verif::point("daemon.drop.shutdown");
             let _ = state.conn.shutdown(Shutdown::Both);
         }
     }
